@@ -2,20 +2,22 @@
 # tools/try_mutant.sh <patch.diff> <tier> <prop> [<prop> ...]
 # applies a seeded change to /repo's working tree, runs the named checks, restores /repo. Prints one line per check.
 patch=$1; tier=$2; shift 2
-cd /repo || exit 2
-git diff --quiet || { echo "/repo working tree is not clean"; exit 2; }
+# REPO / VERIF_HOME: work on copies (a git clone of /repo and a copy of /verif) instead of the originals
+REPO=${REPO:-/repo}; VERIF_HOME=${VERIF_HOME:-/verif}; export REPO
+cd $REPO || exit 2
+git diff --quiet || { echo "$REPO working tree is not clean"; exit 2; }
 git apply "$patch" || { echo "patch does not apply"; exit 2; }
 # evidence written while the seeded change is applied does not describe /repo: keep the committed files
-rm -rf /tmp/try_mutant.evidence.$$; cp -r /verif/evidence /tmp/try_mutant.evidence.$$
+rm -rf /tmp/try_mutant.evidence.$$; cp -r $VERIF_HOME/evidence /tmp/try_mutant.evidence.$$
 for p in "$@"; do
 	out=/tmp/try_mutant.$$.$p.log
-	( cd /verif && ./check $p $tier ) > $out 2>&1
+	( cd $VERIF_HOME && ./check $p $tier ) > $out 2>&1
 	rc=$?
 	v=$(grep -c '^VIOLATION' $out)
 	echo "MUTANT $(basename $(dirname $patch)) check=$p tier=$tier exit=$rc violations=$v"
 	grep -E '^VIOLATION|^  rule=' $out | head -6 | cut -c1-300
 	rm -f $out
 done
-git -C /repo checkout -- .
-rm -rf /verif/evidence; mv /tmp/try_mutant.evidence.$$ /verif/evidence
-cd /verif && git status --porcelain replays | awk '{print $2}' | grep -v '^replays/fixed/' | xargs -r rm -f
+git -C $REPO checkout -- .
+rm -rf $VERIF_HOME/evidence; mv /tmp/try_mutant.evidence.$$ $VERIF_HOME/evidence
+cd $VERIF_HOME && git status --porcelain replays 2>/dev/null | awk '{print $2}' | grep -v '^replays/fixed/' | xargs -r rm -f
